@@ -553,7 +553,87 @@ def stalled_case(ctx, case):
     ctx.label('stalled_' + case['where'])
 
 
-COMPONENTS = {'history': history_case, 'stalled': stalled_case}
+def many_reconnects_case(ctx, case):
+    """'... the same object can connect again, including from inside its own
+    listeners' - not only a few times: n sessions in a row, each started by
+    a listener of the previous one (disconnect(); connect()), then one more
+    from the user thread.  case {version, n}"""
+    import time
+    version, n = case['version'], case['n']
+    ctx.ev()
+    count = [0]
+
+    def factory(addr):
+        return servers.Server({
+            'version': version, 'login': [('success',)],
+            'play': {'bursts': [[('keep_alive', {'keep_alive_id': 7})]],
+                     'mode': 'all', 'end': 'silent'}})
+    world = vnet.World(default=factory)
+    world.max_connects = n + 10
+    errs = []
+    with vnet.installed(world):
+        conn, o = servers.make_connection(world, allowed_versions={version})
+        from minecraft.networking.packets import clientbound as cb
+
+        def on_ka(p):
+            count[0] += 1
+            if count[0] < n:
+                try:
+                    conn.disconnect()
+                    conn.connect()
+                except Exception as e:
+                    errs.append(e)
+        conn.register_packet_listener(on_ka, cb.play.KeepAlivePacket)
+        try:
+            conn.connect()
+            deadline = time.time() + 120
+            last = (-1, time.time())
+            while count[0] < n and not errs and time.time() < deadline:
+                if count[0] != last[0]:
+                    last = (count[0], time.time())
+                elif time.time() - last[1] > 8:
+                    break               # no progress: stuck
+                time.sleep(0.005)
+            reached = count[0]
+            conn.disconnect()
+            state = world.settle(timeout=20.0)
+            again = None
+            if state == 'done':
+                count[0] = n            # the listener stays passive now
+                conn.connect()
+                for _ in range(4000):
+                    if world.links[-1].script.replies:
+                        break
+                    time.sleep(0.001)
+                again = list(world.links[-1].script.replies)
+                conn.disconnect()
+                world.settle(timeout=20.0)
+        except Exception as e:
+            ctx.fail('many_reconnects', 'S5-cannot-connect-again', case,
+                     exc=e)
+            world.kill_all()
+            return
+    if errs or reached < n:
+        ctx.fail('many_reconnects', 'S5-cannot-connect-again', case,
+                 'stopped after %d of %d sessions started from a listener; '
+                 '%r' % (reached, n, errs[:1]), '%d sessions' % n)
+        world.kill_all()
+        return
+    if state != 'done':
+        ctx.fail('many_reconnects',
+                 'S4-thread-never-terminates-after-disconnect', case, state)
+        world.kill_all()
+        return
+    if again != [('keep_alive', 7)]:
+        ctx.fail('many_reconnects', 'S5-final-session-did-not-reach-play',
+                 case, again, [('keep_alive', 7)])
+        return
+    ctx.nt('many', repr(case))
+    ctx.label('many_reconnects_%d' % n)
+
+
+COMPONENTS = {'history': history_case, 'stalled': stalled_case,
+              'many_reconnects': many_reconnects_case}
 
 OPS = ['connect', 'status', 'disconnect', 'disconnect_now', 'settle',
        'step']
@@ -665,6 +745,11 @@ def t_random(ctx, n, maxcalls, fine):
     hyp(ctx, 'random_fine' if fine else 'random', strat, body, n)
 
 
+def t_many_reconnects(ctx, n):
+    many_reconnects_case(ctx, {'version': 757, 'n': n})
+    ctx.sample({'version': 757, 'n': n}, 'many_reconnects')
+
+
 def t_stalled(ctx):
     k = 0
     for v in (757, 340, 47):
@@ -681,7 +766,9 @@ def t_stalled(ctx):
 
 def tasks(tier):
     q = tier == 'quick'
-    tl = [('stalled', t_stalled, {})]
+    tl = [('stalled', t_stalled, {}),
+          ('many_reconnects', t_many_reconnects,
+           dict(n=1100 if q else 3000))]
     for i in range(len(SMALL)):
         nsh = (3 if len(SMALL[i]['programs']) > 1 else 1) if q else 4
         for k in range(nsh):
